@@ -1,7 +1,7 @@
 (* C17 -- proofs about the Jordan-Wigner model (Model/Jw.v) and the generated tables. *)
 From Coq Require Import ZArith List Bool String Arith Lia.
 Import ListNotations.
-From RV Require Import Gen.SimplifyOp Gen.JwSwapRule Model.Jw.
+From RV Require Import Gen.SimplifyOp Gen.JwSwapRule Gen.QcLoops Model.Jw.
 Local Open Scope Z_scope.
 
 (* ================================================================== 2x2 algebra *)
@@ -657,3 +657,263 @@ Proof.
                         (fun l => match site_emit ops l with Some (_, nw) => den_word nw | None => I2 end)).
   ring.
 Qed.
+
+(* ================================================================== stacked = flat as multisets *)
+From Coq Require Import Permutation.
+
+Lemma flat_map_app_perm : forall {A B} (f g : A -> list B) l,
+  Permutation (flat_map (fun x => f x ++ g x) l) (flat_map f l ++ flat_map g l).
+Proof.
+  induction l; cbn [flat_map]; [constructor|].
+  rewrite <- !app_assoc. apply Permutation_app_head.
+  rewrite IHl. rewrite !app_assoc. apply Permutation_app_tail. apply Permutation_app_comm.
+Qed.
+
+Lemma flat_map_map_out : forall {A B C} (f : B -> C) (g : A -> list B) l, flat_map (fun x => map f (g x)) l = map f (flat_map g l).
+Proof. induction l; cbn [flat_map map]; [reflexivity|]. now rewrite map_app, IHl. Qed.
+
+Lemma flat_map_pick : forall {B} (x : B) (kx : nat) ps, NoDup ps -> In kx ps ->
+  flat_map (fun p => if Nat.eqb kx p then [x] else []) ps = [x].
+Proof.
+  induction ps as [|p ps IH]; intros Hnd Hin; [destruct Hin|]. inversion Hnd as [|? ? Hni Hnd']; subst. cbn [flat_map].
+  destruct (Nat.eqb_spec kx p) as [->|Hne].
+  - assert (E : flat_map (fun p0 => if Nat.eqb p p0 then [x] else []) ps = []).
+    { clear IH Hnd Hnd' Hin. induction ps as [|q ps IH]; [reflexivity|]. cbn [flat_map].
+      destruct (Nat.eqb_spec p q) as [->|_]; [exfalso; apply Hni; left; reflexivity|]. cbn [app]. apply IH. intros H; apply Hni; right; exact H. }
+    now rewrite E.
+  - destruct Hin as [->|Hin]; [congruence|]. cbn [app]. now apply IH.
+Qed.
+
+Lemma group_by_key_perm : forall {B} (k : B -> nat) ps (L : list B), NoDup ps -> (forall x, In x L -> In (k x) ps) ->
+  Permutation (flat_map (fun p => filter (fun x => Nat.eqb (k x) p) L) ps) L.
+Proof.
+  intros B k ps L Hnd. induction L as [|x L IH]; intros Hin.
+  - cbn [filter]. clear Hin Hnd. induction ps as [|p ps IHp]; cbn [flat_map app]; [constructor | exact IHp].
+  - rewrite (flat_map_ext _ (fun p => (if Nat.eqb (k x) p then [x] else []) ++ filter (fun y => Nat.eqb (k y) p) L)).
+    2:{ intros p. cbn [filter]. destruct (Nat.eqb (k x) p); reflexivity. }
+    rewrite flat_map_app_perm, flat_map_pick by (auto; apply Hin; left; reflexivity).
+    cbn [app]. constructor. apply IH. intros y Hy. apply Hin. right. exact Hy.
+Qed.
+
+Lemma stacked_group_spec : forall S1 S2 p,
+  stacked_group S1 S2 p = Some (map mkT1 (rows1 S1 p) ++ map mkT2 (rows2 S2 p)).
+Proof.
+  intros. unfold stacked_group, stacked_group_emitted, stacked_one_guard, stacked_two_guard.
+  destruct (rows1 S1 p), (rows2 S2 p); reflexivity.
+Qed.
+
+Lemma stacked_domain_spec : forall norbs f1 f2, (forall p, In p (f1 ++ f2) -> (p < norbs)%nat) ->
+  NoDup (stacked_domain norbs f1 f2) /\ (forall p, In p (f1 ++ f2) -> In p (stacked_domain norbs f1 f2)).
+Proof.
+  intros norbs f1 f2 Hb. unfold stacked_domain.
+  first [ split; [apply NoDup_nodup | intros p Hp; apply nodup_In; exact Hp]
+        | split; [apply seq_NoDup | intros p Hp; apply in_seq; specialize (Hb p Hp); lia] ].
+Qed.
+
+(* for every support pattern (S1, S2) and every order in which the visited first indices are enumerated (a Python set),
+   the concatenation of the stacked sub-lists is a permutation of the flat list *)
+Theorem stacked_is_flat_proof : forall norbs S1 S2 ps,
+  (forall x, In x S1 -> (fst x < norbs)%nat) -> (forall x, In x S2 -> (qfirst x < norbs)%nat) ->
+  Permutation ps (stacked_visits norbs S1 S2) ->
+  Permutation (stacked_terms_over ps S1 S2) (flat_terms S1 S2).
+Proof.
+  intros norbs S1 S2 ps H1 H2 Hps. unfold stacked_visits in Hps.
+  assert (Hb : forall p, In p (map fst S1 ++ map qfirst S2) -> (p < norbs)%nat).
+  { intros p Hp. apply in_app_or in Hp. destruct Hp as [Hp|Hp]; apply in_map_iff in Hp; destruct Hp as [x [<- Hx]]; auto. }
+  destruct (stacked_domain_spec norbs _ _ Hb) as [Hnd Hall].
+  assert (Hnd' : NoDup ps) by (eapply Permutation_NoDup; [apply Permutation_sym; exact Hps | exact Hnd]).
+  assert (Hin : forall p, In p (map fst S1 ++ map qfirst S2) -> In p ps).
+  { intros p Hp. eapply Permutation_in; [apply Permutation_sym; exact Hps | apply Hall, Hp]. }
+  unfold stacked_terms_over, flat_terms.
+  rewrite (flat_map_ext _ (fun p => map mkT1 (rows1 S1 p) ++ map mkT2 (rows2 S2 p))) by (intros; now rewrite stacked_group_spec).
+  rewrite flat_map_app_perm, !flat_map_map_out. apply Permutation_app; apply Permutation_map; unfold rows1, rows2.
+  - apply (group_by_key_perm fst); [exact Hnd'|]. intros x Hx. apply Hin, in_or_app. left. now apply in_map.
+  - apply (group_by_key_perm qfirst); [exact Hnd'|]. intros x Hx. apply Hin, in_or_app. right. now apply in_map.
+Qed.
+
+(* ================================================================== hermiticity: closure of the term list under the adjoint *)
+Lemma sh_sym : forall h, h_symmetric h -> forall p q, sh_val h p q = sh_val h q p.
+Proof.
+  intros h Hh p q. unfold sh_val, sh_pred, sh_src. rewrite (Nat.eqb_sym (Nat.modulo q 2)).
+  destruct (Nat.eqb (Nat.modulo p 2) (Nat.modulo q 2)); [apply Hh | reflexivity].
+Qed.
+
+Lemma aseri_sym : forall eri, eri_symmetric eri -> forall p q r s, aseri_val eri p q r s = aseri_val eri r s p q.
+Proof.
+  intros eri [Ha [Hb Hc]] p q r s. unfold aseri_val, aseri_in_range. rewrite (andb_comm (Nat.ltb p q)).
+  destruct (Nat.ltb r s && Nat.ltb p q)%bool; [|reflexivity].
+  unfold perm4, perm_get, aseri_plus, aseri_minus; cbn [nth]. unfold seri_val, seri_pred, seri_src.
+  rewrite (Nat.eqb_sym (Nat.modulo r 2) (Nat.modulo q 2)), (Nat.eqb_sym (Nat.modulo s 2) (Nat.modulo p 2)),
+          (Nat.eqb_sym (Nat.modulo r 2) (Nat.modulo p 2)), (Nat.eqb_sym (Nat.modulo s 2) (Nat.modulo q 2)).
+  f_equal.
+  - destruct (Nat.eqb (Nat.modulo p 2) (Nat.modulo s 2)), (Nat.eqb (Nat.modulo q 2) (Nat.modulo r 2)); cbn [andb]; try reflexivity.
+    rewrite (Hc (Nat.div r 2)), (Ha (Nat.div s 2)), (Hb (Nat.div p 2)). reflexivity.
+  - destruct (Nat.eqb (Nat.modulo p 2) (Nat.modulo r 2)), (Nat.eqb (Nat.modulo q 2) (Nat.modulo s 2)); cbn [andb]; try reflexivity.
+    rewrite (Ha (Nat.div r 2)), (Hb (Nat.div p 2)). reflexivity.
+Qed.
+
+(* index level: the adjoint class carries the same coefficient, hence belongs to the support iff the class does *)
+Theorem qc_hermitian_coeff : forall h eri, h_symmetric h -> eri_symmetric eri ->
+  forall t, tcoef h eri (tadj t) = tcoef h eri t /\ tadj (tadj t) = t.
+Proof.
+  intros h eri Hh He [p q|p q r s]; cbn [tadj tcoef]; split; try reflexivity.
+  - now rewrite (sh_sym h Hh).
+  - now rewrite (aseri_sym eri He).
+Qed.
+
+(* operator level: the adjoint (transpose; everything is real) of a product of ladder operators is the product of the
+   daggered operators in reverse order *)
+Lemma entry_tr : forall fs r c, entry (map tr2 fs) r c = entry fs c r.
+Proof.
+  induction fs as [|f fs IH]; intros r c; destruct r as [|a r], c as [|b c]; cbn [map entry]; try reflexivity.
+  rewrite IH. destruct f, a, b; reflexivity.
+Qed.
+
+Lemma den_lop_site_dag : forall l o, den_word (lop_site l (lop_dag o)) = tr2 (den_word (lop_site l o)).
+Proof.
+  intros l [dag j]. unfold lop_dag; cbn [fst snd]. rewrite !den_lop_site. unfold site_mat.
+  destruct (Nat.ltb l j); [reflexivity|]. destruct (Nat.eqb l j); [|reflexivity]. destruct dag; reflexivity.
+Qed.
+
+Lemma site_word_app : forall a b l, site_word (a ++ b) l = site_word a l ++ site_word b l.
+Proof. intros. unfold site_word. apply flat_map_app. Qed.
+
+Lemma den_site_word_adj : forall ops l, den_word (site_word (ops_adj ops) l) = tr2 (den_word (site_word ops l)).
+Proof.
+  induction ops as [|o t IH]; intros l; [reflexivity|].
+  unfold ops_adj in *. cbn [map rev]. rewrite site_word_app, den_word_app, IH.
+  change (site_word [lop_dag o] l) with (lop_site l (lop_dag o) ++ []). rewrite app_nil_r, den_lop_site_dag.
+  change (site_word (o :: t) l) with (lop_site l o ++ site_word t l). now rewrite den_word_app, tr2_mul2.
+Qed.
+
+Theorem ops_product_adj : forall n ops r c,
+  pt_entry (ops_product n (ops_adj ops)) r c = pt_entry (ops_product n ops) c r.
+Proof.
+  intros. rewrite !ops_product_sites. unfold pt_entry; cbn [pt_coef pt_facs]. f_equal.
+  rewrite (map_ext _ (fun l => tr2 (den_word (site_word ops l)))) by (intros; apply den_site_word_adj).
+  rewrite <- (map_map (fun l => den_word (site_word ops l)) tr2). apply entry_tr.
+Qed.
+
+(* normal ordering of the adjoint of a two-body term: a+_s a+_r a_q a_p = a+_r a+_s a_p a_q (two anticommutations) *)
+Lemma zipmul_assoc : forall a b c, zipmul (zipmul a b) c = zipmul a (zipmul b c).
+Proof.
+  induction a as [|x a IH]; intros [|y b] [|z c]; cbn [zipmul]; try reflexivity. now rewrite mul2_assoc, IH.
+Qed.
+Lemma pt_mul_assoc : forall p q r, pt_mul (pt_mul p q) r = pt_mul p (pt_mul q r).
+Proof. intros [c1 f1] [c2 f2] [c3 f3]. unfold pt_mul; cbn [pt_coef pt_facs]. now rewrite zipmul_assoc, Z.mul_assoc. Qed.
+Lemma zipmul_length : forall a b, List.length a = List.length b -> List.length (zipmul a b) = List.length a.
+Proof. induction a as [|x a IH]; intros [|y b] H; cbn in *; try congruence. now rewrite IH by congruence. Qed.
+Lemma lop_pt_length : forall n o, List.length (pt_facs (lop_pt n o)) = n.
+Proof. intros n [[] j]; cbn; apply jw_string_length. Qed.
+Lemma pt_mul_id_r : forall n o, pt_mul (lop_pt n o) (mkPT 1 (repeat I2 n)) = lop_pt n o.
+Proof.
+  intros n o. pose proof (lop_pt_length n o) as H. destruct (lop_pt n o) as [c f]; cbn [pt_facs] in H. unfold pt_mul; cbn [pt_coef pt_facs].
+  rewrite Z.mul_1_r. f_equal. rewrite <- H at 1. apply zipmul_repeat_I_r.
+Qed.
+Lemma all_bits_length : forall n m, In m (all_bits n) -> List.length m = n.
+Proof.
+  induction n; intros m H; cbn [all_bits] in H.
+  - destruct H as [<-|[]]. reflexivity.
+  - apply in_app_or in H. destruct H as [H|H]; apply in_map_iff in H; destruct H as [m' [<- H']]; cbn; now rewrite IHn.
+Qed.
+Lemma sumZ_map_ext_in : forall {A} (f g : A -> Z) l, (forall x, In x l -> f x = g x) -> sumZ (map f l) = sumZ (map g l).
+Proof. intros. f_equal. apply map_ext_in; auto. Qed.
+
+Lemma anticomm_pairs : forall n (A B C D : lop) r c,
+  (forall r c, List.length r = n -> List.length c = n -> acomm (lop_pt n A) (lop_pt n B) r c = 0) ->
+  (forall r c, List.length r = n -> List.length c = n -> acomm (lop_pt n C) (lop_pt n D) r c = 0) ->
+  List.length r = n -> List.length c = n ->
+  pt_entry (ops_product n [A; B; C; D]) r c = pt_entry (ops_product n [B; A; D; C]) r c.
+Proof.
+  intros n A B C D r c HAB HCD Hr Hc. cbn [ops_product fold_right]. rewrite !pt_mul_id_r, <- !pt_mul_assoc.
+  assert (L2 : forall X Y, List.length (pt_facs (pt_mul (lop_pt n X) (lop_pt n Y))) = n).
+  { intros. unfold pt_mul; cbn [pt_facs]. rewrite zipmul_length; rewrite !lop_pt_length; reflexivity. }
+  rewrite !pt_mul_assoc.
+  rewrite <- (pt_mul_assoc (lop_pt n A)), <- (pt_mul_assoc (lop_pt n B)).
+  rewrite !pt_mul_is_operator_product by (rewrite ?L2, ?Hr, ?Hc; reflexivity).
+  apply sumZ_map_ext_in. intros m Hm. rewrite Hr in Hm. apply all_bits_length in Hm.
+  specialize (HAB r m Hr Hm). specialize (HCD m c Hm Hc). unfold acomm in HAB, HCD. nia.
+Qed.
+
+Lemma acomm_dag_dag : forall n i j r c, (i < n)%nat -> (j < n)%nat -> List.length r = n -> List.length c = n ->
+  acomm (lop_pt n (true, i)) (lop_pt n (true, j)) r c = 0.
+Proof. intros. cbn [lop_pt fst snd]. now destruct (jw_car_proof n i j r c) as [_ [_ ?]]. Qed.
+Lemma acomm_op_op : forall n i j r c, (i < n)%nat -> (j < n)%nat -> List.length r = n -> List.length c = n ->
+  acomm (lop_pt n (false, i)) (lop_pt n (false, j)) r c = 0.
+Proof. intros. cbn [lop_pt fst snd]. now destruct (jw_car_proof n i j r c) as [_ [? _]]. Qed.
+
+(* the term list is closed under the adjoint: for symmetric integrals the class tadj t carries the same coefficient and
+   its operator is the transpose of the operator of t -- every number of spin orbitals, every matrix element *)
+Theorem qc_hermitian_proof : forall n h eri, h_symmetric h -> eri_symmetric eri ->
+  forall t r c, (match t with T1 p q => p < n /\ q < n | T2 p q r' s => p < n /\ q < n /\ r' < n /\ s < n end)%nat ->
+  List.length r = n -> List.length c = n ->
+  tcoef h eri (tadj t) * pt_entry (term_pt n (t_ops (tadj t))) r c = tcoef h eri t * pt_entry (term_pt n (t_ops t)) c r.
+Proof.
+  intros n h eri Hh He t r c Hb Hr Hc. destruct (qc_hermitian_coeff h eri Hh He t) as [-> _]. f_equal.
+  rewrite !qc_term_is_jw_product_proof, <- ops_product_adj.
+  destruct t as [p q|p q r' s]; cbn [tadj t_ops].
+  - reflexivity.
+  - destruct Hb as [Hp [Hq [Hr' Hs]]].
+    change (ops_adj (two_body_ops p q r' s)) with [(true, s); (true, r'); (false, q); (false, p)].
+    change (two_body_ops r' s p q) with [(true, r'); (true, s); (false, p); (false, q)].
+    symmetry. apply anticomm_pairs; auto; intros; [apply acomm_dag_dag | apply acomm_op_op]; auto.
+Qed.
+
+(* ================================================================== sequences of exchanges (operator side, swap_jw = False) *)
+(* Built on C01's swap_mpo_sound (Proofs/SymMpoProofs.v), for every commutative ring and every exact-zero test. *)
+From RV Require Import Base.CRing Model.SymMpo Proofs.SymMpoProofs.
+
+(* exchange the entries k, k+1 of a string of primary operators *)
+Definition swap_str (k : nat) (s : list nat) : list nat :=
+  firstn k s ++ match skipn k s with a :: b :: t => b :: a :: t | t => t end.
+Definition perm_str (ks : list nat) (s : list nat) : list nat := fold_right swap_str s ks.
+
+Lemma swap_str_length : forall k s, List.length (swap_str k s) = List.length s.
+Proof.
+  intros. unfold swap_str. rewrite <- (firstn_skipn k s) at 3. rewrite !app_length. f_equal.
+  destruct (skipn k s) as [|a [|b t]]; reflexivity.
+Qed.
+Lemma perm_str_length : forall ks s, List.length (perm_str ks s) = List.length s.
+Proof. induction ks; intros; cbn [perm_str fold_right]; [reflexivity|]. fold (perm_str ks s). now rewrite swap_str_length, IHks. Qed.
+
+Section OfsPlain.
+Variable R : CRing.
+Variable iszero : R -> bool.
+Hypothesis iszero_ok : forall x, iszero x = true -> x = r0 R.
+
+(* a history of successful try_swap_site calls: positions (= number of bonds before the exchanged pair), oldest first *)
+Inductive swap_history : list (bond R) -> list nat -> list (bond R) -> Prop :=
+| sh_nil : forall bs, swap_history bs [] bs
+| sh_step : forall nprim pre post b2 b3 nb2 nb3 ws ks bs',
+    swap_site R iszero nprim b2 b3 ws = Some (nb2, nb3) ->
+    sweep_ok R iszero ws (dedup R iszero (swap_table R nprim b2 b3)) ->
+    swap_history (pre ++ nb2 :: nb3 :: post) ks bs' ->
+    swap_history (pre ++ b2 :: b3 :: post) (List.length pre :: ks) bs'.
+
+Lemma swap_history_length : forall bs ks bs', swap_history bs ks bs' -> List.length bs' = List.length bs.
+Proof. induction 1; [reflexivity|]. rewrite IHswap_history, !app_length. reflexivity. Qed.
+
+Lemma one_swap_coeff : forall nprim pre post b2 b3 nb2 nb3 ws s,
+  swap_site R iszero nprim b2 b3 ws = Some (nb2, nb3) ->
+  sweep_ok R iszero ws (dedup R iszero (swap_table R nprim b2 b3)) ->
+  List.length s = List.length (pre ++ b2 :: b3 :: post) ->
+  coeff R (pre ++ nb2 :: nb3 :: post) s = coeff R (pre ++ b2 :: b3 :: post) (swap_str (List.length pre) s).
+Proof.
+  intros nprim pre post b2 b3 nb2 nb3 ws s Hs Hok Hlen. rewrite app_length in Hlen. cbn [List.length] in Hlen.
+  unfold swap_str. rewrite <- (firstn_skipn (List.length pre) s) at 1.
+  assert (Hsk : List.length (skipn (List.length pre) s) = S (S (List.length post))) by (rewrite skipn_length; lia).
+  destruct (skipn (List.length pre) s) as [|a [|b t]]; cbn [List.length] in Hsk; try lia.
+  apply (swap_mpo_sound R iszero iszero_ok nprim pre post b2 b3 nb2 nb3 ws Hs Hok). lia.
+Qed.
+
+(* after ANY sequence of adjacent exchanges the coefficient of every operator string is the original coefficient of the
+   string with the same exchanges undone: the operator is the original one written in the new site order *)
+Theorem ofs_operator_invariant_plain_proof : forall bs ks bs', swap_history bs ks bs' ->
+  forall s, List.length s = List.length bs -> coeff R bs' s = coeff R bs (perm_str ks s).
+Proof.
+  induction 1 as [bs|nprim pre post b2 b3 nb2 nb3 ws ks bs' Hs Hok Hh IH]; intros s Hlen; [reflexivity|].
+  cbn [perm_str fold_right]. fold (perm_str ks s).
+  rewrite IH by (rewrite Hlen, !app_length; reflexivity).
+  apply (one_swap_coeff nprim pre post b2 b3 nb2 nb3 ws); [exact Hs | exact Hok |]. now rewrite perm_str_length.
+Qed.
+End OfsPlain.
